@@ -249,14 +249,18 @@ S_LockObserve(p) ==
 S_ReadRun(p) ==
     LET early == UnlockAt = "early"
         u == IF early THEN AfterUnlock(p) ELSE [rl |-> rl, wl |-> wl, granted |-> {}, rest |-> lq]
-        covered == req[p].od \/ PostingsCovered(BalancesOf(store, Zero), loc[p].posts)
+        \* mode "bal": the amount is a balance() variable of the source, resolved here (negative: refused)
+        viaBal == req[p].kind = "create" /\ req[p].mode = "bal"
+        src == loc[p].posts[1].src
+        posts == IF viaBal THEN <<[loc[p].posts[1] EXCEPT !.amt = Bal(src)]>> ELSE loc[p].posts
+        covered == IF viaBal THEN Bal(src) >= 0 ELSE req[p].od \/ PostingsCovered(BalancesOf(store, Zero), loc[p].posts)
     IN  IF covered
         THEN /\ rl' = u.rl /\ wl' = u.wl /\ lq' = u.rest
-             /\ loc' = [q \in Procs |-> IF q = p THEN [loc[p] EXCEPT !.holding = IF early THEN FALSE ELSE @]
+             /\ loc' = [q \in Procs |-> IF q = p THEN [loc[p] EXCEPT !.holding = IF early THEN FALSE ELSE @, !.posts = posts]
                                         ELSE IF q \in u.granted THEN [loc[q] EXCEPT !.granted = TRUE] ELSE loc[q]]
              /\ Goto(p, "ran")
              /\ UNCHANGED <<store, lastLog, lastTx, refs, seqOwner, pending, inflight, doneSet, resp, events>>
-        ELSE /\ Fail(p, "insufficient")
+        ELSE /\ Fail(p, IF viaBal THEN "negative-amount" ELSE "insufficient")
              /\ UNCHANGED <<store, lastLog, lastTx, pending, inflight, doneSet, events>>
 
 \* exec(): nextTXID()
